@@ -691,6 +691,9 @@ func TestVerifC10Inbound(t *testing.T) {
 		if err != nil || json.Unmarshal(b, &rf) != nil || rf.Part != "inbound" {
 			return
 		}
+		if s, _ := vrep.Shard(); s != 0 {
+			return
+		}
 		replay = &rf.Replay
 	}
 	states := c10States(vrep.Thorough() || replay != nil)
